@@ -1,16 +1,14 @@
-"""Writes MANIFEST.json from the table below (kept valid at all times)."""
-import json, os
+"""Writes MANIFEST.json from the MANIFEST dict each checks/cNN.py declares (kept valid at all times)."""
+import importlib, json, os, sys
 V = os.path.dirname(os.path.dirname(os.path.abspath(__file__)))
+sys.path.insert(0, V); sys.path.insert(0, os.path.join(V, 'lib'))
 ids = [json.loads(l)['id'] for l in open(os.path.join(V, 'properties.jsonl'))]
-CLAIMED = {
- 'C01': dict(
-   text='Lean 4 theorems over a function-by-function model of LinkBuffer (Netpoll.Buf.Model) refine a FIFO byte-queue spec (Netpoll.Buf.Spec) for all operation sequences and sizes; '
-        'the model is tied to /repo on every run by regenerated constants (T-gen) and a differential run that compares results and the full node-chain state after every operation, '
-        'while the Lean spec judges the implementation\'s replies directly.',
-   note='Trusted: Lean kernel; axioms propext/Classical.choice/Quot.sound; extractor; harness and line protocol. Correspondence is sampling (evidence lists op histogram). '
-        'Go int overflow and concurrent use are outside the model. See DESIGN.md §6 C01 and §8.',
-   technique='Lean 4 refinement proof (model -> FIFO spec) + differential correspondence of model and code', design='§6 C01'),
-}
+CLAIMED = {}
+for i in ids:
+    if os.path.exists(os.path.join(V, 'checks', i.lower() + '.py')):
+        mod = importlib.import_module('checks.' + i.lower())
+        if getattr(mod, 'MANIFEST', None):
+            CLAIMED[i] = mod.MANIFEST
 checks = []
 for i in ids:
     if i in CLAIMED:
@@ -18,15 +16,21 @@ for i in ids:
         checks.append({
             'property_id': i, 'quick_cmd': './check %s --tier quick' % i, 'thorough_cmd': './check %s --tier thorough' % i,
             'evidence_file': '/verif/evidence/%s.json' % i, 'replay_cmd_template': './check %s --replay {path}' % i,
-            'engine': 'lean4+tdiff',
-            'level_claimed': {'category': 'proof', 'text': c['text'], 'design_ref': c['design']},
+            'engine': c.get('engine', 'lean4+tdiff'),
+            'level_claimed': {'category': c.get('category', 'proof'), 'text': c['text'], 'design_ref': c['design']},
             'level_note': c['note'], 'technique': c['technique']})
+NA = {}
+na_path = os.path.join(V, 'lib', 'not_applicable.json')
+if os.path.exists(na_path):
+    NA = json.load(open(na_path))
+hooks_path = os.path.join(V, 'lib', 'hook_commits.json')
+hook_commits = json.load(open(hooks_path)) if os.path.exists(hooks_path) else []
 m = {'version': 1, 'setup_cmd': './setup.sh',
-     'hooks': {'guard': 'verif', 'enable': 'go build -tags verif -overlay /verif/work/overlay.json (harness files are added to package netpoll; the pool allocator is replaced by go/pool/mcache.go)',
-               'baseline_off_cmd': 'cd /repo && go test -vet=off -count=1 -timeout 25m ./...', 'source_commits': [], 'add_only': True},
-     'engines': [{'name': 'lean4+tdiff', 'path': '/verif/lean', 'serves_properties': sorted(CLAIMED), 'kind_free_text': 'Lean 4 model + theorems; Go differential harness; Lean spec oracle'}],
+     'hooks': {'guard': 'verif', 'enable': 'go build -tags verif -overlay /verif/work/overlay.json (harness files from /verif/go/inpkg are added to package netpoll; the pool allocator is replaced by /verif/go/pool/mcache.go)',
+               'baseline_off_cmd': 'cd /repo && go test -vet=off -count=1 -timeout 25m ./...', 'source_commits': hook_commits, 'add_only': True},
+     'engines': [{'name': 'lean4+tdiff', 'path': '/verif/lean', 'serves_properties': sorted(CLAIMED), 'kind_free_text': 'Lean 4 models + theorems (lake project); Go correspondence harnesses (go/); Lean spec oracles driven through the npdriver line protocol'}],
      'checks': checks,
      'notes': 'fix: commits in /repo and known findings are listed in /verif/known_findings.jsonl; see DESIGN.md',
-     'not_applicable': [{'property_id': i, 'reason': 'check not built yet (framework under construction; DESIGN.md §6 has the plan) - not a claim that the technique cannot apply'} for i in ids if i not in CLAIMED]}
+     'not_applicable': [{'property_id': i, 'reason': NA.get(i, 'check not built yet (framework under construction; DESIGN.md §6 has the plan) - not a claim that the technique cannot apply')} for i in ids if i not in CLAIMED]}
 json.dump(m, open(os.path.join(V, 'MANIFEST.json'), 'w'), indent=1)
 print('claimed', sorted(CLAIMED))
